@@ -190,6 +190,44 @@ theorem dictionary_filter_commutes {α β : Type} (lookup : α → β) (keys : L
     filterSpec (keys.map lookup) mask = (filterSpec keys mask).map lookup :=
   filterSpec_map lookup keys mask
 
+/-! ### dictionary merge (`merge_dictionary_values`) -/
+
+/-- **T-tie for the interner input**: `masked_bytes` / `masked_primitives_to_bytes` in
+`arrow-select/src/dictionary.rs` still hand a NULL value slot to the interner as `None`
+(`array.is_valid(idx).then_some(..)`) — the shape `maskedValues` models.  If the expression
+is edited the generated item is LOST and this lemma no longer checks. -/
+theorem masked_bytes_null_aware :
+    Generated.C03.MASKED_BYTES_NULL_AWARE_lost = false ∧
+    Generated.C03.MASKED_PRIMITIVES_NULL_AWARE_lost = false := ⟨rfl, rfl⟩
+
+/-- **`merge_dictionary_values` preserves every referenced value**: for every bucket function
+(so for every hash and every pattern of hash collisions), every key width and every key mask,
+each value slot referenced by a selected valid key is mapped to a slot of the merged values
+array holding the same `Option bytes`.  A NULL value slot therefore stays null — it is never
+merged with a valid value that has the same bytes underneath (e.g. the empty string). -/
+theorem merge_dictionary_values_sound (hash : Option Bytes → Nat) (maxKey : Nat) (dicts : List Dict)
+    (masks : Option (List (List Bool))) (mappings : List (List Nat)) (merged : List (Option Bytes))
+    (h : mergeDictionaryValues hash maxKey dicts masks = some (mappings, merged)) :
+    ∀ i d, dicts[i]? = some d → ∀ v, (valuesMask d (masks.bind (·[i]?)))[v]? = some true →
+      merged[(mappings.getD i []).getD v 0]? = some ((d.values[v]?).join) :=
+  mergeDictionaryValues_sound hash maxKey dicts masks mappings merged h
+
+/-- **merged dictionary + remapped keys denote the same rows** (`concat_dictionaries`): reading
+the remapped keys of input `i` against the merged values gives exactly the logical rows of
+input `i` (null if the key is null OR the value slot is null); the concatenated key arrays are
+then covered by `concat_correct`. -/
+theorem dictionary_merge_same_rows (hash : Option Bytes → Nat) (maxKey : Nat) (dicts : List Dict)
+    (mappings : List (List Nat)) (merged : List (Option Bytes))
+    (h : mergeDictionaryValues hash maxKey dicts none = some (mappings, merged))
+    (i : Nat) (d : Dict) (hd : dicts[i]? = some d)
+    (hkeys : ∀ k, some k ∈ d.keys → k < d.values.length) :
+    (Dict.mk (d.keys.map (Option.map (fun k => (mappings.getD i []).getD k 0))) merged).decode = d.decode :=
+  remapped_keys_decode hash maxKey dicts mappings merged h i d hd hkeys
+
+/-- non-vacuity: a dictionary whose values hold a NULL slot and a valid empty string, both referenced -/
+example : (Dict.mk [some 0, some 1, none, some 2] [none, some [], some [120]]).decode
+    = [none, some [], none, some [120]] := by decide
+
 /-! ### batch coalescer -/
 
 /-- the freshly constructed coalescer satisfies the invariant -/
